@@ -50,6 +50,16 @@ def inputs_for(bpt, tier):
         for inn in itertools.product(inner, repeat=2):
             for st in ((1, 1, 1, 1), (1, -1, 1, -1)) if tier == "thorough" else ((1, 1, 1, 1),):
                 out.append((("scaffold_1", pv.scaffold_rows("tpf", "scaffold_1", (o1, *inn, o2), ((),) * 3, st)),))
+    # a gap longer than the contig that follows it (a cut deep inside the gap), and an abutting pair next to a
+    # gapped pair (a piece whose row pattern is no palindrome)
+    big = (("G", 8 * e + 6, "contig"),)
+    for style in ("tpf", "fasta"):
+        for l2 in (e, 2 * e + 1, 8 * e + 4):
+            for st in ((1, 1), (-1, 1)) if style == "tpf" else ((1, 1),):
+                out.append((("scaffold_1", pv.scaffold_rows(style, "scaffold_1", (8 * e + 4, l2), (big,), st)),))
+    for st in ((1, 1, 1), (1, -1, 1)):
+        out.append((("scaffold_1", pv.scaffold_rows("tpf", "scaffold_1", (2 * e + 1, e, 8 * e + 4), ((), (("G", 2, "scaffold"),)), st)),))
+        out.append((("scaffold_1", pv.scaffold_rows("tpf", "scaffold_1", (8 * e + 4, e, 2 * e + 1), ((("G", 7, "contig"),), (("G", 2, "scaffold"),)), st)),))
     _ = scale
     return out
 
